@@ -26,8 +26,9 @@ def gen_cases(ck, limit, step):
     quick = ck.tier == "quick"
     # (a) exhaustive: every subset of cancellation points for streams with <= 6 suspension points
     n_ex = 14 if quick else 80
+    ALLT = fg.TARGETS + fg.CALLM_TARGETS
     for i in range(n_ex):
-        target = fg.TARGETS[i % len(fg.TARGETS)]
+        target = ALLT[i % len(ALLT)]
         k = rng.randrange(1, 4)
         frames = []
         while len(frames) < k:
@@ -52,7 +53,7 @@ def gen_cases(ck, limit, step):
     # (b) cancel every k-th poll, for all k, on longer streams; random subsets
     n_long = 40 if quick else 400
     for i in range(n_long):
-        target = rng.choice(fg.TARGETS)
+        target = rng.choice(ALLT)
         k = rng.randrange(2, 7)
         frames = []
         while len(frames) < k:
@@ -126,6 +127,43 @@ def main():
                          {"case": c, "impl": r, "model_and_spec": model, "codes": codes,
                           "correspondence": "ReadConn.drive_c vs Connection::receive_* with dropped futures"},
                          tag="m%d" % c["id"], no_input=True)
+    # ---- real transports (tokio and smol Unix sockets, binary built without the hook cfg): a peer
+    # writes each frame in several segments with pauses while the receiver abandons its receive by a
+    # short time-out again and again; every message must still arrive intact, once, in order. This
+    # exercises the cancel-safety of the transports' own read futures, which the model assumes.
+    sock_cases, sock_cancels = [], 0
+    if not ck.replay:
+        root = harness_root()
+        rc_, log_ = sh("cargo build --offline --bin sock --target-dir %s" % os.path.join(root, "target-nohook"),
+                       timeout=1500, cwd=root, env={"RUSTFLAGS": ""})
+        if rc_ != 0:
+            ck.violation("socket harness does not build against /repo", {"log": log_[-3000:]}, tag="sbuild", no_input=True)
+        else:
+            rng = ck.rng
+            for i in range(6 if ck.tier == "quick" else 40):
+                for rt in ("tokio", "smol"):
+                    sizes = [rng.choice([1, 20, 300, 700, rng.randrange(1, 1500)]) for _ in range(rng.randrange(2, 5))]
+                    cuts = [sorted(rng.sample(range(1, 60 + sz), rng.randrange(1, 4))) for sz in sizes]
+                    sock_cases.append({"id": len(sock_cases), "runtime": rt, "kind": "recv_cancel", "sizes": sizes,
+                                       "cuts": cuts, "gap_ms": 25, "recv_timeout_ms": rng.choice([5, 8, 12])})
+            from concurrent.futures import ThreadPoolExecutor
+            exe = os.path.join(root, "target-nohook", "debug", "sock")
+
+            def one(c):
+                rc2, out2 = sh(exe, timeout=120, input=json.dumps(c) + "\n")
+                for l in out2.splitlines():
+                    if l.startswith("{"):
+                        return json.loads(l)
+                return {"crash": True, "log": out2[-300:]}
+            with ThreadPoolExecutor(max_workers=12) as ex:
+                sres = list(ex.map(one, sock_cases))
+            for c, r in zip(sock_cases, sres):
+                sock_cancels += r.get("cancels", 0)
+                if r.get("results") != ["ok"] * len(c["sizes"]):
+                    ck.violation("over a real %s Unix socket, with the receive abandoned %s times between the segments of "
+                                 "the frames, the messages did not all arrive intact and in order: %s" % (
+                                     c["runtime"], r.get("cancels"), r.get("results", r)),
+                                 {"case": c, "impl": r}, tag="sock%d" % c["id"])
     hashes = {case_hash([c["target"], c["events"], c["n"], c["cancel"]]) for c in cases}
     nontriv = {case_hash([c["target"], c["events"], c["n"], c["cancel"]]) for c in cases if c["cancel"]}
     hist = {}
@@ -134,6 +172,7 @@ def main():
     ck.cov.update({"evaluations": len(cases), "distinct_nontrivial": len(nontriv),
                    "traces_validated_against_impl": len(items), "case_classes": hist,
                    "futures_dropped_total": cancels_done,
+                   "real_socket_runs": len(sock_cases), "real_socket_receives_abandoned": sock_cancels,
                    "exhaustive": False,
                    "exhaustive_part": "every subset of suspension points for the streams in class exhaustive_subsets"})
     for c in cases[:2] + cases[-2:]:
